@@ -298,12 +298,14 @@ func (self *DbImpl) RestoreFromReader(snapshot io.Reader) {
 
 	self.reloadLock.Lock()
 	defer self.reloadLock.Unlock()
+	verifPoint("restore.locked")
 
 	dbPath := self.db.Path()
 
 	if err = self.Close(); err != nil {
 		panic(fmt.Errorf("unable to close current database while applying snapshot (%w)", err))
 	}
+	verifPoint("restore.closed")
 
 	backupPath := dbPath + ".previous"
 	if err = os.Rename(dbPath, backupPath); err != nil {
@@ -313,10 +315,12 @@ func (self *DbImpl) RestoreFromReader(snapshot io.Reader) {
 	if err = os.Rename(snapshotPath, dbPath); err != nil {
 		panic(fmt.Errorf("unable to rename new db snapshot file [%v] to [%v] (%w)", snapshotPath, dbPath, err))
 	}
+	verifPoint("restore.renamed")
 
 	if err = self.Open(dbPath); err != nil {
 		panic(err)
 	}
+	verifPoint("restore.opened")
 
 	for _, listener := range self.restoreListeners.Value() {
 		go listener()
